@@ -6,7 +6,7 @@ from .fam_evloop import EvloopFam
 LOCKED = ["Lock", "defer Unlock"]
 
 PROP = Property(
-    "C14", ["HsVerif.Props.C14"], [QueueFam(), EvloopFam()],
+    "C14", ["HsVerif.Props.C14", "HsVerif.Props.C14Gen"], [QueueFam(), EvloopFam()],
     facts=[
         # lock discipline the model's atomic steps rest on
         {"func": "core/eventloop/queue.go:queue.push", "order": LOCKED},
@@ -67,12 +67,17 @@ META = {
             "scripts of length 5 (thorough 6, capacities 1-2), seeded random scripts incl. nested registration, unregistering during "
             "dispatch, deferral during re-add, context helpers, malformed lines, hand-written corpus; an independent oracle (ideal deque, "
             "ideal handler set) judges every implementation trace; concurrent producers against Run are compared as multisets with "
-            "per-producer order (thorough: also under -race).",
+            "per-producer order (thorough: also under -race). Tie by TRANSLATION as well (Props/C14Gen): queue.go's push/pop/len are "
+            "regenerated into Lean from the Go source on every run (tools/gofacts/methods.go: struct methods over int fields and one "
+            "slice, if/else, early return, ++, slice reads/writes; Lock/Unlock and the readyChan send skipped and named) and proved "
+            "equal to the hand-written model for EVERY queue value (gen_push_eq_model, gen_pop_eq_model, gen_len_eq_model); the "
+            "translation also tracks whether every slice index was in range, and queue_never_indexes_out_of_range proves it is, after "
+            "any word from newQueue(c), c >= 1 (no index panic in queue.go).",
     "note": "Both defects of DESIGN section 6 were reproduced on the unchanged tree with concrete replays (queue capacity 2: push a,b,c "
             "reports b; Register/unregister/Register/unregister-again loses the second handler, reachable through TimeoutContext) and "
             "are repaired by the two diffs in fixes/; the model is of the repaired code. Trusted: Lean kernel, propext/Quot.sound/"
             "Classical.choice, gofacts, the correspondence harness, sync.Mutex/channels/sync.Pool. Partial: Run's blocking select / "
             "lost wake-up on readyChan (liveness delay only), tickers, scheduling.",
-    "technique": "Lean 4 theorems (refinement of ring buffer to bounded deque; table invariant + flow equations over logs) + lock-"
-                 "discipline facts + differential correspondence with exhaustive small scopes, ideal-deque/ideal-set oracle, -race support",
+    "technique": "Lean 4 theorems (refinement of ring buffer to bounded deque; table invariant + flow equations over logs) + "
+                 "Go->Lean translation of queue.go's methods with bridging theorems + lock-discipline facts + differential correspondence with exhaustive small scopes, ideal-deque/ideal-set oracle, -race support",
 }
